@@ -2,6 +2,7 @@ package c16
 
 import (
 	"fmt"
+	"hash/fnv"
 	"math/big"
 	"strings"
 
@@ -506,6 +507,12 @@ func (r *ref) runTx(p *Program, codes [3]*Code, root *tframe) (ok bool, created 
 func fmtAcct(name string, ex bool, bal string, nonce uint64, code []byte, s0, s1 uint64) string {
 	if !ex {
 		return name + "{absent}"
+	}
+	if len(code) > 40 {
+		// long code: length, head and an exact digest (the whole-state check compares the keccak code hash as well)
+		d := fnv.New64a()
+		d.Write(code)
+		return fmt.Sprintf("%s{bal=%s nonce=%d code=%dbytes:%x..:%x s0=%x s1=%x}", name, bal, nonce, len(code), code[:4], d.Sum64(), s0, s1)
 	}
 	return fmt.Sprintf("%s{bal=%s nonce=%d code=%x s0=%x s1=%x}", name, bal, nonce, code, s0, s1)
 }
